@@ -103,7 +103,7 @@ _tok = re.compile(r'<a name="([^"]*)" href="([^"?]*)\?(tree-[ec])=([^#"]*)#|(ROW
 _KIND = {'ROW': 'row', 'HEAD': 'head', 'FOOT': 'foot', 'LEAF': 'leaf'}
 
 
-def request(nodes, cookie=None, click=None, special=None, src=SRC):
+def request(nodes, cookie=None, click=None, special=None, src=SRC, cls=None):
     """returns dict(rows=[uids], items=[[kind, uid]], links={uid: (param, value)}, cookie=str, state=set of uids named by the cookie)"""
     from DocumentTemplate.DT_HTML import HTML
     from TreeDisplay import TreeTag
@@ -111,9 +111,9 @@ def request(nodes, cookie=None, click=None, special=None, src=SRC):
     # the tree is rebuilt for every request (rows read again from a database, fresh wrappers, another worker process): the
     # nodes of this request are other Python objects than those of the request before, equal in everything the tag may use
     nodes = copy.deepcopy(nodes)
-    t = _t.get(src)
+    t = _t.get((src, cls))
     if t is None:
-        t = _t[src] = HTML(src)
+        t = _t[(src, cls)] = (cls or HTML)(src)
     resp = Response()
     kw = {'URL': 'http://h/doc', 'RESPONSE': resp, 'root': nodes[0]}
     kw.update(docs())
